@@ -45,6 +45,7 @@ const c10Rule = "one evaluation = one SendReqCtx/SendReqAsync call of the real s
 
 type c10Stats struct {
 	maxAttempts int
+	maxAfterEnd int
 	topos       map[int]*c10Topo
 }
 
@@ -140,7 +141,7 @@ func c10Run(r *vrep.Report, st *c10Stats, c *c10Case) {
 func c10RunSession(r *vrep.Report, st *c10Stats, seq []*c10Case) {
 	for _, c := range seq {
 		c10Defaults(c)
-		c.Stores, c.Forwarding, c.Leader, c.Slow = seq[0].Stores, seq[0].Forwarding, seq[0].Leader, seq[0].Slow
+		c.Stores, c.Forwarding, c.Leader, c.Slow, c.LiveCtx = seq[0].Stores, seq[0].Forwarding, seq[0].Leader, seq[0].Slow, seq[0].LiveCtx
 	}
 	w := c10OpenWorld(st.topo(seq[0].Stores), seq[0])
 	defer w.close()
@@ -180,7 +181,8 @@ func c10Judge(r *vrep.Report, st *c10Stats, c *c10Case, out *c10Outcome) {
 	}
 	class := "?"
 	detail := func() map[string]any {
-		res := map[string]any{"class": class, "attempts": A, "backoffs": out.boTimes, "backoff_ms": out.boSleep, "budget_spent": out.budgetGone, "ctx_done": out.ctxDone}
+		res := map[string]any{"class": class, "attempts": A, "backoffs": out.boTimes, "backoff_ms": out.boSleep, "budget_spent": out.budgetGone, "ctx_done": out.ctxDone,
+			"ctx_ended_at_attempt": out.endedAt, "attempts_after_ctx_end": out.afterEnd}
 		if out.err != nil {
 			res["err"] = strings.SplitN(out.err.Error(), "\n", 2)[0]
 		}
@@ -320,6 +322,44 @@ func c10Judge(r *vrep.Report, st *c10Stats, c *c10Case, out *c10Outcome) {
 	// ---- (5) retry marker
 	if cli.noRetryMarkAt > 0 {
 		r.Violate("retry-marker-missing:"+path, fmt.Sprintf("attempt %d of one send did not carry IsRetryRequest; script [%s] mode=%s cmd=%s", cli.noRetryMarkAt, c.scriptString(), c.Mode, c.Cmd), detail())
+	}
+
+	// ---- the caller's context ended during the send: the statement does not say how fast the send has to end
+	// or what it has to return then, so beyond the clauses above (bounded, truthful result, flags) the behaviour
+	// is recorded, not judged.
+	if e := c.CtxEnd; e != nil && out.endedAt >= 0 && !cli.capHit {
+		r.Count("ctxend_sends", 1)
+		r.Count("ctxend_"+e.How+"_"+e.Where, 1)
+		if e.Ancestor != "" {
+			r.Count("ctxend_on_ancestor", 1)
+		}
+		r.Count("ctxend_result_"+class, 1)
+		r.Count("ctxend_attempts_issued_after_end", out.afterEnd)
+		r.Count("ctxend_backoffs_after_end", out.boTimes-out.boAtEnd)
+		if out.afterEnd > 0 {
+			r.Count("ctxend_sends_with_attempts_after_end", 1)
+		}
+		if out.afterEnd > st.maxAfterEnd {
+			st.maxAfterEnd = out.afterEnd
+		}
+		if class == "region-error" {
+			lastAns := ""
+			if len(cli.attempts) > 0 {
+				lastAns = cli.attempts[len(cli.attempts)-1].Ans
+			}
+			switch lastAns {
+			case "", "ctx-ended", c10CtxErr, c10RPC, c10Deadline, c10Cancel:
+				// no store answered with a region error last: the sender made one up for the caller
+				r.Count("ctxend_pseudo_region_error_returned", 1)
+			}
+		}
+		r.Distinct(fmt.Sprintf("ctxend|%s|%s|%s|%v|%s", e.String(), c.kindsString(), c.Mode, c.Async, class))
+	}
+	if n := len(c.Before); n > 0 && c.CtxEnd == nil {
+		if b := c.Before[n-1]; b.CtxEnd != nil {
+			r.Count("sends_following_a_ctxend_send", 1)
+			r.Count("sends_following_a_ctxend_send_"+class, 1)
+		}
 	}
 
 	// ---- what was observed
@@ -478,6 +518,22 @@ func c10AllSteps() []c10Step {
 	return last
 }
 
+func c10RandCtxEnd(rng *rand.Rand) *c10CtxEnd {
+	e := &c10CtxEnd{How: c10Pick(rng, []string{"cancel", "deadline"}), Ancestor: c10Pick(rng, []string{"", "", "value", "cancel"})}
+	switch x := rng.Intn(10); {
+	case x < 1:
+		e.Where = "start"
+	case x < 7:
+		e.Where, e.N = "inflight", 1+rng.Intn(4)
+	default:
+		e.Where, e.N = "backoff", 1+rng.Intn(3)
+	}
+	return e
+}
+
+// steps after which the sender backs off before it re-sends
+var c10PaidKinds = []string{c10NLNoHint, c10MaxTS, c10RPC, c10DiskFull, c10Busy, c10ReadIdx, c10Merging, c10NotInit}
+
 func c10Replay() *c10Case {
 	p := vrep.ReplayPath()
 	if p == "" {
@@ -565,9 +621,57 @@ func TestVerifC10Scripts(t *testing.T) {
 			}
 		}
 		c10RandCfg(rng, c)
+		if rng.Intn(12) == 0 {
+			c.CtxEnd = c10RandCtxEnd(rng)
+			c.LiveCtx = rng.Intn(2) == 0
+		}
 		c10Run(r, st, c)
 	}
 	r.Count("random_scripts", nr)
+	r.Flush()
+
+	// the caller's context ends: before the send, while attempt N is in flight (the client then answers with every
+	// kind of the alphabet, a success, or the context's own error), and during the N-th back-off
+	inflight := append(c10AllSteps(), c10Step{K: c10Success}, c10Step{K: c10CtxErr})
+	nce := 0
+	for _, how := range []string{"cancel", "deadline"} {
+		for _, anc := range []string{"", "value", "cancel"} {
+			for rep := 0; rep < vrep.Pick(2, 8); rep++ {
+				c := &c10Case{Mode: c10Pick(rng, c10Modes), CtxEnd: &c10CtxEnd{How: how, Where: "start", Ancestor: anc}}
+				c10RandCfg(rng, c)
+				c10Run(r, st, c)
+				nce++
+			}
+			for _, ans := range inflight {
+				for rep := 0; rep < vrep.Pick(2, 6); rep++ {
+					n := 1 + rng.Intn(3)
+					c := &c10Case{Mode: c10Pick(rng, c10Modes), CtxEnd: &c10CtxEnd{How: how, Where: "inflight", N: n, Ancestor: anc}, LiveCtx: rep%2 == 0}
+					for j := 1; j < n; j++ {
+						c.Script = append(c.Script, c10RandStep(rng, all))
+					}
+					c.Script = append(c.Script, ans)
+					c.Forever = rep%2 == 1 && ans.K != c10Success
+					c10RandCfg(rng, c)
+					c10Run(r, st, c)
+					nce++
+				}
+			}
+			for _, k := range c10PaidKinds {
+				for n := 1; n <= 2; n++ {
+					c := &c10Case{Mode: c10Pick(rng, c10Modes), CtxEnd: &c10CtxEnd{How: how, Where: "backoff", N: n, Ancestor: anc}, Forever: true, MaxSleep: 40000, LiveCtx: n == 1}
+					for j := rng.Intn(2); j > 0; j-- {
+						c.Script = append(c.Script, c10RandStep(rng, all))
+					}
+					c.Script = append(c.Script, c10Step{K: k})
+					c10RandCfg(rng, c)
+					c10Run(r, st, c)
+					nce++
+				}
+			}
+		}
+	}
+	r.Count("ctxend_scripts", nce)
+	r.Count("ctxend_max_attempts_issued_after_end", st.maxAfterEnd)
 	r.Flush()
 
 	// for-ever part: budget exhaustion and unbounded retry
@@ -609,6 +713,12 @@ func TestVerifC10Scripts(t *testing.T) {
 	r.Floor("stale_fallbacks", 20)
 	r.Floor("async_sends", 100)
 	r.Floor("paid_retries", 100)
+	r.Floor("ctxend_sends", 300)
+	r.Floor("ctxend_cancel_inflight", 50)
+	r.Floor("ctxend_deadline_inflight", 50)
+	r.Floor("ctxend_cancel_backoff", 10)
+	r.Floor("ctxend_deadline_backoff", 10)
+	r.Floor("ctxend_on_ancestor", 100)
 }
 
 // TestVerifC10ReadTS: every read command with a timestamp, in every read mode
@@ -728,6 +838,60 @@ func TestVerifC10Sessions(t *testing.T) {
 	r.Count("systematic_sessions", n)
 	r.Flush()
 
+	// the caller's context ends during a send (direct or forwarded attempt in flight, or a back-off), then further
+	// sends with a live context run on what that send left in the cache, liveness left alone (KeepLive)
+	nc := 0
+	for _, how := range []string{"cancel", "deadline"} {
+		for _, where := range []string{"inflight", "backoff", "start"} {
+			for _, fwd := range []bool{true, false} {
+				for _, ans := range []c10Step{{K: c10CtxErr}, {K: c10RPC}, {K: c10Success}, {K: c10StaleCmd}, {K: c10NLNoHint}, {K: c10Busy}, {K: c10Deadline}} {
+					for rep := 0; rep < vrep.Pick(2, 8); rep++ {
+						nc++
+						stores := c10Pick(rng, []int{3, 3, 4, 5})
+						voters := stores
+						if stores == 4 {
+							voters = 3
+						}
+						leader := rng.Intn(voters)
+						e := &c10CtxEnd{How: how, Where: where, N: 1 + rng.Intn(2), Ancestor: c10Pick(rng, []string{"", "value", "cancel"})}
+						s1 := &c10Case{Stores: stores, Mode: "leader", Cmd: writeOrRead(rep), Forwarding: fwd, Leader: leader, RandSeed: rng.Int63(), ReadTS: 100,
+							CtxEnd: e, LiveCtx: nc%2 == 0, DownOnRPC: nc%3 == 0, Async: nc%4 == 0, TimeoutMs: c10Pick(rng, []int{30000, 1000})}
+						if fwd && nc%2 == 1 {
+							s1.Unreach = []int{leader}
+						}
+						if nc%5 == 0 {
+							s1.Mode = c10Pick(rng, c10Modes)
+						}
+						if where == "backoff" {
+							s1.Script = []c10Step{{K: c10Pick(rng, c10PaidKinds)}}
+							s1.Forever = true
+						} else {
+							for j := 1; j < e.N; j++ {
+								s1.Script = append(s1.Script, c10RandStep(rng, all))
+							}
+							s1.Script = append(s1.Script, ans)
+							s1.Forever = ans.K != c10Success && rep%2 == 0
+						}
+						seq := []*c10Case{s1}
+						// then: a send that the stores answer at once, and one with random faults
+						seq = append(seq, &c10Case{Mode: s1.Mode, Cmd: writeOrRead(rep), KeepLive: true, RandSeed: rng.Int63(), ReadTS: 100, Async: nc%3 == 1})
+						s3 := &c10Case{Mode: s1.Mode, KeepLive: true}
+						for l := rng.Intn(4); l > 0; l-- {
+							s3.Script = append(s3.Script, c10RandStep(rng, all))
+						}
+						s3.Forever = len(s3.Script) > 0 && rng.Intn(3) == 0
+						c10RandCfg(rng, s3)
+						s3.Unreach = nil
+						seq = append(seq, s3)
+						c10RunSession(r, st, seq)
+					}
+				}
+			}
+		}
+	}
+	r.Count("ctxend_sessions", nc)
+	r.Flush()
+
 	// random part
 	ns := vrep.Pick(2500, 40000)
 	for i := 0; i < ns; i++ {
@@ -754,8 +918,16 @@ func TestVerifC10Sessions(t *testing.T) {
 			c10RandCfg(rng, c)
 			if j == 0 {
 				c.Forwarding = rng.Intn(4) > 0
+				c.LiveCtx = rng.Intn(2) == 0
 			}
 			c.KeepLive = j > 0 && rng.Intn(2) == 0
+			if j < k-1 && rng.Intn(4) == 0 {
+				// the caller gives up during this send; the next send on the same cached region has a live context
+				c.CtxEnd = c10RandCtxEnd(rng)
+				if rng.Intn(2) == 0 {
+					c.Script = append(c.Script, c10Step{K: c10CtxErr})
+				}
+			}
 			seq = append(seq, c)
 		}
 		// liveness per send, relative to the session's leader
@@ -793,4 +965,6 @@ func TestVerifC10Sessions(t *testing.T) {
 	r.Floor("sends_with_retry", 500)
 	r.Floor("errors_budget_spent", 10)
 	r.Floor("region_error_returns", 300)
+	r.Floor("ctxend_sends", 300)
+	r.Floor("sends_following_a_ctxend_send", 300)
 }
